@@ -210,7 +210,7 @@ def bounded_url_parts(tier, seed):
         for e in errs:
             key = e.split(" ")[0] + " " + e.split(" ")[1]
             if sum(1 for f in failures if f["id"].startswith(key)) < 2:
-                failures.append({"id": f"{key}: {text[:40]!r}", "function": "multidecoder.decoders.network.find_urls", "obligation": "bounded/url", "case": {"url": text.hex()}, "observed": e})
+                failures.append({"id": f"{key}: {text[:40]!r}", "function": "multidecoder.decoders.network.find_urls", "where": ["parse_url", "parse_authority", "parse_ip", "parse_ipv6", "is_url", "normalize_percent_encoding"], "obligation": "bounded/url", "case": {"url": text.hex()}, "observed": e})
     return {"evaluations": n, "distinct_nontrivial": len(distinct), "scope": "hand-written URLs + seeded URLs from a grammar (schemes in mixed case, userinfo, ports, IPv4/obfuscated/IPv6/domain hosts, dot segments, escapes in every component, empty query, fragment)",
             "failures": failures, "samples": [{"url": cases[-1].hex()}]}
 
